@@ -75,7 +75,7 @@ func genTarget(t *rapid.T) string {
 			sb.WriteString("/")
 		}
 		s := rapid.SampledFrom(segs).Draw(t, "seg")
-		if i == 0 && (s == "" ) {
+		if i == 0 && (s == "") {
 			s = "r" // "//x" as a request-target is parsed as authority-form by some stacks: not generated in first position
 		}
 		sb.WriteString(s)
